@@ -7,6 +7,7 @@ import Nsq.Proofs.AggregateDedup
 import Nsq.Proofs.Fetch
 import Nsq.Proofs.AggregateWrap
 import Nsq.Proofs.Latency
+import Nsq.Proofs.ViewOrder
 /-!
 # C18 — nsqadmin's cluster view equals the sum of its parts
 
@@ -539,7 +540,7 @@ example : (match view Fixes.all (chanWorld true) (.channel "t1" "nosuch") with
 example : (match view Fixes.all f4World .nodes with
     | .ok v => v.status | .error _ => 0) = 200 := by decide
 
-/-! ## The latency document: shape of `e2e_processing_latency.percentiles` (round 7, `fixes/F24`) -/
+/-! ## The latency document: shape of `e2e_processing_latency.percentiles` (round 7, `fixes/F53`) -/
 
 section Latency
 open Nsq.Model.Latency Nsq.Proofs.Latency
@@ -554,7 +555,7 @@ def pctTopic : Topic := { name := "zz", cnt := {}, paused := false, e2e := true,
 behind a proxy) that does not honour `topic=`. -/
 def pctWorld : World := { lookupds := [], nsqdAddrs := ["N0"], nsqds := [pctNsqd false [some pctTopic]] }
 
-/-- **The defect reported for round 7 is genuine on the tree without F24**: one `null` inside
+/-- **The defect reported for round 7 is genuine on the tree without F53**: one `null` inside
 `percentiles` anywhere in an nsqd's `/stats` answer makes `UnmarshalJSON` write to a nil map inside the
 GetNSQDStats fetch goroutine — process death, for the topic, channel, node and counter views alike
 (here: the view of topic `t1`, while the `null` is in another topic). -/
@@ -578,8 +579,8 @@ example : (match view Fixes.all pctWorld (.topic "t1") with
 example : (match view { Fixes.all with nilPct := false } pctWorld .topics with
     | .ok v => v.status | .error _ => 0) = 200 := by decide
 
-/-- **latency_unmarshal.** `UnmarshalJSON` on the tree without F24 faults exactly on the documents with a
-`null` element; with F24 it never faults and returns the non-null entries in order. -/
+/-- **latency_unmarshal.** `UnmarshalJSON` on the tree without F53 faults exactly on the documents with a
+`null` element; with F53 it never faults and returns the non-null entries in order. -/
 theorem latency_unmarshal (l : List Pct) :
     ((∃ e, unmarshal false l = .error e) ↔ none ∈ l) ∧
     unmarshal true l = .ok (l.filter (·.isSome)) ∧ AllSome (l.filter (·.isSome)) := by
@@ -609,7 +610,7 @@ theorem latency_add_total (p e2 : List Pct) (h : AllSome p) :
 
 example : add [some 99, some 95] [some 50, none, some 99, some 0] = .ok [some 99, some 95, some 50, some 0] := rfl
 
-/-- **latency_aggregate_no_panic.** With F24, for any number of nodes reporting percentile lists of any
+/-- **latency_aggregate_no_panic.** With F53, for any number of nodes reporting percentile lists of any
 lengths, with repeated, missing or `null` entries: decoding and aggregating never faults, and the aggregate
 has exactly one entry per distinct "quantile" reported in a non-null entry by some node. -/
 theorem latency_aggregate_no_panic (docs : List (List Pct)) :
@@ -620,7 +621,7 @@ theorem latency_aggregate_no_panic (docs : List (List Pct)) :
 example : aggregate true [[some 99, some 95, some 50], [none, some 50], [], [some 1, some 99, none]] =
     .ok [some 99, some 95, some 50, some 1] := rfl
 
-/-- Without F24 a `null` entry in any node's document is fatal. -/
+/-- Without F53 a `null` entry in any node's document is fatal. -/
 theorem latency_aggregate_panics_without_guard (docs : List (List Pct)) (h : ∃ d ∈ docs, none ∈ d) :
     ∃ e, aggregate false docs = .error e := by
   obtain ⟨e, he⟩ := decodeAll_unfixed_panics docs h
@@ -629,7 +630,7 @@ theorem latency_aggregate_panics_without_guard (docs : List (List Pct)) (h : ∃
 example : ∃ e, aggregate false [[some 99], [none]] = .error e :=
   latency_aggregate_panics_without_guard _ ⟨[none], by simp, by simp⟩
 
-/-- Why F24 *drops* the nil maps instead of merely skipping them in `UnmarshalJSON`'s loop
+/-- Why F53 *drops* the nil maps instead of merely skipping them in `UnmarshalJSON`'s loop
 (`if p == nil { continue }`): a nil map left in the first node's document — which `TopicStats.Add` takes over
 as the aggregate of the channel — is written to by the next node's `Add` as soon as that node reports an
 entry whose "quantile" reads 0.0 (member missing). `latency_add_total`'s hypothesis is necessary. -/
@@ -638,7 +639,7 @@ theorem latency_skip_only_repair_insufficient :
 
 end Latency
 
-/-! ## A `nodes` member sent by the upstream (round 7, `fixes/F25`) -/
+/-! ## A `nodes` member sent by the upstream (round 7, `fixes/F54`) -/
 
 /-- A channel object that carries `"nodes":[null]`. -/
 def junkChan : Chan :=
@@ -651,7 +652,7 @@ def junkNsqd (addr host : String) (c : Chan) : Nsqd :=
 def junkWorld : World :=
   { lookupds := [], nsqdAddrs := ["N0", "N1"], nsqds := [junkNsqd "N0" "a" junkChan, junkNsqd "N1" "b" (chan0 true)] }
 
-/-- **Second finding of the sweep**, on the tree without F25: `TopicStats.Add` takes the first node's channel
+/-- **Second finding of the sweep**, on the tree without F54: `TopicStats.Add` takes the first node's channel
 object — `NodeStats` decoded from the upstream included — as the aggregate; the second node's `ChannelStats.Add`
 appends to it and sorts: `ChannelStatsByHost.Less` dereferences the nil. In the handler: a 500 although every
 upstream answered. -/
@@ -677,6 +678,82 @@ example : (match view { Fixes.all with clearNodes := false }
 /-- The channel map of GetNSQDStats (channel and counter views) starts from an aggregate nsqadmin creates. -/
 example : (match view { Fixes.all with clearNodes := false } junkWorld (.channel "t1" "c1") with
     | .ok v => v.status | .error _ => 0) = 200 := by decide
+
+/-! ## Order of the lists the views return (round 7) -/
+
+section Order
+open Nsq.Model.ViewOrder Nsq.Proofs.ViewOrder
+
+/-- **order_by_host.** `ChannelStatsByHost`, `ClientsByHost`, `TopicStatsByHost`, `ProducersByHost` (and
+`ProducerTopics`, by topic name) compare one string key with `<`: a strict weak order, which is what `sort.Sort`
+needs to promise a sorted result; and for such a comparator the sorted result is determined up to the exchange of
+elements with equal keys: two sorted arrangements of the same reports show the same key sequence. (That
+`sort.Sort` returns a sorted permutation when `Less` is a strict weak order is the library's contract —
+trusted; the harness' order oracle `vfE7SortCheck` checks it on every answer.) -/
+theorem order_by_host {α : Type} (f : α → String) :
+    StrictWeakOrder (fun a b : α => hostLess (f a) (f b)) ∧
+    ∀ l₁ l₂ : List α, l₁.Perm l₂ →
+      SortedBy (fun a b => hostLess (f a) (f b)) l₁ → SortedBy (fun a b => hostLess (f a) (f b)) l₂ →
+      l₁.map f = l₂.map f :=
+  ⟨swo_on hostLess_swo f, sortedBy_host_determined f⟩
+
+example : SortedBy (fun a b : String × Nat => hostLess a.1 b.1) [("alpha", 2), ("alpha", 1), ("beta", 0)] := by
+  unfold SortedBy; decide
+
+/-- **order_clients_by_topology.** `ClientStatsByNodeTopology.Less` (the client list of the channel view) is
+*not* a strict weak order — it is not even irreflexive: two clients of one node that are equally close to it
+(both in the node's zone, or both only in its region) are each "less" than the other, so `sort.Sort` promises
+nothing about their relative order, nor — strictly by its contract — about the rest. What does hold: across
+different nodes the comparator is the strict order on `Node` (asymmetric); and `sort.Sort` only swaps, so
+the list stays a permutation of the clients (`channels_merge`), which is all the check compares. -/
+theorem order_clients_by_topology :
+    ¬ StrictWeakOrder topoLess ∧
+    (∀ a b : ClientKey, a.node = b.node → a.nodeRegion = b.nodeRegion → a.nodeZone = b.nodeZone →
+      cls a = cls b → cls a ≤ 1 → topoLess a b = true ∧ topoLess b a = true) ∧
+    (∀ a b : ClientKey, a.node ≠ b.node → topoLess a b = true → topoLess b a = false) :=
+  ⟨topoLess_not_swo, topoLess_both_of_close, topoLess_asymm_across_nodes⟩
+
+example : topoLess ⟨"N0", "r", "z", "r", "z"⟩ ⟨"N0", "r", "z", "r", "z"⟩ = true := by decide
+example : topoLess ⟨"N0", "r", "z", "r", "y"⟩ ⟨"N0", "r", "z", "r", "x"⟩ = true ∧
+    topoLess ⟨"N0", "r", "z", "r", "x"⟩ ⟨"N0", "r", "z", "r", "y"⟩ = true := by decide
+example : topoLess ⟨"N0", "r", "z", "q", "y"⟩ ⟨"N1", "r", "z", "r", "z"⟩ = true := by decide
+
+end Order
+
+/-! ## "502 only when none answers" and zero producers (audit 7, C13) -/
+
+/-- One nsqlookupd that answers every question — and knows no producer of `t1`. -/
+def healthyEmptyWorld : World :=
+  { lookupds := [⟨"L0", some ["t1"], some [], some []⟩], nsqdAddrs := [], nsqds := [] }
+
+/-- **The clause "502 only when none answers" is false of the code (and of this model of it) when no producer is
+known**: every upstream that is asked answers, yet the topic, channel and counter views are 502 — GetNSQDStats
+tests `len(errs) == len(producers)`, which is `0 == 0`. The `partial_warning_*` theorems state the rule the code
+follows ("some stage got no answer", which includes the stage that asked nobody); the property's reading is
+checked by the python oracle and recorded as the open finding `view:502-without-producers`. -/
+theorem view_502_although_every_upstream_answered :
+    (match view Fixes.all healthyEmptyWorld (.topic "t1") with | .ok v => v.status | .error _ => 0) = 502 ∧
+    (match view Fixes.all healthyEmptyWorld (.channel "t1" "c1") with | .ok v => v.status | .error _ => 0) = 502 ∧
+    (match view Fixes.all healthyEmptyWorld .counter with | .ok v => v.status | .error _ => 0) = 502 ∧
+    (match view Fixes.all healthyEmptyWorld .nodes with | .ok v => v.status | .error _ => 0) = 200 := by decide
+
+/-- The property's clause as a statement about the model: a 502 implies that some upstream answer failed. -/
+def only_502_when_something_failed : Prop :=
+  ∀ (w : World) (req : Request) (v : View), view Fixes.all w req = .ok v → v.status = 502 →
+    (∃ l ∈ w.lookupds, l.topics = none ∨ l.nodes = none ∨ l.lookup = none) ∨
+    (∃ n ∈ w.nsqds, n.info = none ∨ n.stats = none) ∨ (∃ a ∈ w.nsqdAddrs, nsqdAt w a = none)
+
+theorem only_502_when_something_failed_false : ¬ only_502_when_something_failed := by
+  intro h
+  have h502 : ∃ v, view Fixes.all healthyEmptyWorld (.topic "t1") = .ok v ∧ v.status = 502 := by
+    refine ⟨{ status := 502 }, rfl, rfl⟩
+  obtain ⟨v, hv, hs⟩ := h502
+  rcases h healthyEmptyWorld (.topic "t1") v hv hs with ⟨l, hl, h1⟩ | ⟨n, hn, _⟩ | ⟨a, ha, _⟩
+  · simp only [healthyEmptyWorld, List.mem_singleton] at hl
+    subst hl
+    simp at h1
+  · simp [healthyEmptyWorld] at hn
+  · simp [healthyEmptyWorld] at ha
 
 /-! ## fetch_terminates -/
 
